@@ -596,6 +596,16 @@ def check_consumers(repo, chk, options, chain_fns):
                 for e in ast.walk(t):
                     if isinstance(e, ast.Name) and e.id in own:
                         tests.add(e.id)
+            # any other decision taken on the option's value: a comparison, a boolean operation, a subscript index
+            # (table dispatch `{True: f, False: g}[opt == "x"]`), a `not`
+            if isinstance(n, (ast.Compare, ast.BoolOp)) or (isinstance(n, ast.UnaryOp) and isinstance(n.op, ast.Not)):
+                for e in ast.walk(n):
+                    if isinstance(e, ast.Name) and e.id in own:
+                        tests.add(e.id)
+            if isinstance(n, ast.Subscript):
+                for e in ast.walk(n.slice):
+                    if isinstance(e, ast.Name) and e.id in own:
+                        tests.add(e.id)
         for o in sorted(tests):
             consumers[o].append("%s: tested" % f.qual)
     return consumers
@@ -609,6 +619,10 @@ def run(repo, chk, tier):
     from .c02_align import check_alignment_cover
 
     check_alignment_cover(repo, chk)
+    # per-chain lists meet position by position: each follows the declared chain selection (shared with C03)
+    from .c03_order import check_selection_order
+
+    check_selection_order(repo, chk)
     chk.rule(
         "E3-fwd",
         "at every call site of the angle-option chain, an argument that carries option N (caller parameter N, self.N, "
